@@ -90,7 +90,7 @@ SeqFails(mon, S, ds, xs, deep) ==
   (IF Len(ds) = Len(xs) THEN {}
    ELSE {F(mon, S, [what |-> "number of transactions", got |-> Len(ds), want |-> Len(xs), k |-> 0, c |-> 0, typ |-> 0])}) \cup
   UNION {{F(mon, S, [what |-> f.what, got |-> 0, want |-> 0, k |-> k, c |-> f.c, typ |-> f.typ]) : f \in TxFails(ds[k], xs[k], deep)}
-         : k \in 1..Min(Len(ds), Len(xs))}
+         : k \in 1..Min2(Len(ds), Len(xs))}
 
 (***************************************************************************)
 (* C01: end-to-end fidelity (single fault-free attempt).                   *)
@@ -150,7 +150,7 @@ MonC03(S) ==
                  dmp == SelectSeq(LinesAtt(S, "cmd", a), LAMBDA x : x.kind = "dump")
                  same(i) == rs[i].now = ds[k + i].now /\ rs[i].next = ds[k + i].next /\ rs[i].ts = ds[k + i].ts /\ rs[i].evs = ds[k + i].evs
              IN (IF Len(dmp) = 1 /\ dmp[1].file = ds[k].next.file /\ dmp[1].off = ds[k].next.off THEN {} ELSE {Z("resume-request", k)}) \cup
-                (IF Len(rs) = n - k /\ \A i \in 1..Min(Len(rs), n - k) : same(i) THEN {} ELSE {Z("resume-remaining", k)}))
+                (IF Len(rs) = n - k /\ \A i \in 1..Min2(Len(rs), n - k) : same(i) THEN {} ELSE {Z("resume-remaining", k)}))
      : k \in 1..n}
 
 (***************************************************************************)
@@ -198,7 +198,7 @@ MonC04(S) ==
   LET acc == Accepted(S)
       xs  == ExpectedFrom(S, StartPos(S))
       n   == NAttempts(S)
-      bad == {i \in 1..Min(Len(acc), Len(xs)) : TxFails(acc[i], xs[i], FALSE) # {}}
+      bad == {i \in 1..Min2(Len(acc), Len(xs)) : TxFails(acc[i], xs[i], FALSE) # {}}
   IN (IF Len(acc) > Len(xs) THEN {Z("C04.exactly-once", S, "more accepted transactions than committed", Len(acc), Len(xs))} ELSE {}) \cup
      {Z("C04.exactly-once", S, "accepted sequence is not the committed sequence (skip/repeat/reorder)", acc[i].att, i) : i \in bad} \cup
      (IF CleanPlan(Plan(S, n - 1)) /\ Len(acc) < Len(xs)
